@@ -124,7 +124,12 @@ OSAttribute ENVOBJ::getAttribute(CK_ATTRIBUTE_TYPE type)
 	if (type == CKA_ALLOWED_MECHANISMS) { std::set<CK_MECHANISM_TYPE> s = allowedSet(o); OSAttribute a(s); return a; }
 	if (isOther(o, type))
 	{
+#ifdef VP_ENV_OTHER_KIND
+		// constant kind (the unit's contract requires the ghost input to agree): cbmc prunes the other kinds
+		CK_ULONG k = VP_ENV_OTHER_KIND;
+#else
 		CK_ULONG k = OBJX(o, OTHER_KIND);
+#endif
 		if (k == 1) { bool v = OBJX(o, OTHER_ULONG) != 0; OSAttribute a(v); return a; }
 		if (k == 2) { unsigned long v = OBJX(o, OTHER_ULONG); OSAttribute a(v); return a; }
 		if (k == 4)
